@@ -22,8 +22,12 @@ judge_hand() {
     if echo "$res" | grep -q "^VIOLATION property=$p"; then echo "hand/$n caught_by=$p"; else echo "hand/$n caught_by=no"; fi
 }
 judge_neg() {
-    f=$1; res=$(tools/mutant.sh check "$f" C20 2>&1)
-    if echo "$res" | grep -q "CHECK C20 rc=0"; then echo "negative/$(basename $f .diff) silent=yes"; else echo "negative/$(basename $f .diff) silent=NO"; fi
+    # correctly synchronised / correctly per-thread state: C20 must stay silent, and - because such state holds storage until the thread or the
+    # process ends - so must the leak oracle of the engine-A checks (retained is not leaked, DESIGN.md 2.2)
+    f=$1; props="C20"; case "$(basename $f .diff)" in mutex_cache|tls_format_stream) props="C20 C04 C18 C19";; esac
+    ok=yes
+    for p in $props; do res=$(tools/mutant.sh check "$f" $p 2>&1); echo "$res" | grep -q "CHECK $p rc=0" || ok="NO($p)"; done
+    echo "negative/$(basename $f .diff) silent=$ok"
 }
 export -f judge_one judge_hand judge_neg
 ls -d seeded/C*-*/ | xargs -P 3 -I{} bash -c 'judge_one {}' > "$tmp/a.txt"
